@@ -1165,3 +1165,47 @@ Section Cards.
         * destruct (x_disable_exact cfg); cbn; lia.
   Qed.
 End Cards.
+
+(** T3 for the whole stage: a family of per-class instance lists and counts *)
+Theorem stage_cardinalities fa okN okF (L : FreqLaws fa okN okF) cfg (A : Type)
+        (insts_of : str -> list A) (cntf : str -> A -> bool -> str -> str -> N) thr P C shapes :
+  x_keep_less_specific cfg = true -> x_all_compliant cfg = true -> okF thr ->
+  (forall ce, In ce P ->
+     class_cnt C ce = N.of_nat (List.length (insts_of (fst ce))) /\ okN (class_cnt C ce) /\
+     pd_wf cfg A (insts_of (fst ce)) (cntf (fst ce)) false (c_direct (snd ce)) /\
+     (x_inverse cfg = true -> pd_wf cfg A (insts_of (fst ce)) (cntf (fst ce)) true (c_inverse (snd ce))) /\
+     (forall i inv k, In i (insts_of (fst ce)) -> (cntf (fst ce) i inv (x_tau cfg) k <= 1)%N)) ->
+  shex fa cfg thr P C = inl shapes ->
+  forall sh s, In sh shapes -> In s (sh_stmts sh) -> s_choice s = false -> s_type s <> c_NONLITERAL_ELEM_TYPE ->
+  forall i, In i (insts_of (sh_class sh)) ->
+    card_holds (s_card s) (cntf (sh_class sh) i (s_inv s) (s_prop s) (s_type s)).
+Proof.
+  intros Hk Hon Hthr Hwf H sh s Hsh Hs Hch Hty i Hi.
+  destruct (shex_spec _ _ _ _ _ _ H sh Hsh) as (ce & sh0 & Hce & Hc & (S1 & S2 & S3 & S4)).
+  destruct (Hwf ce Hce) as (W1 & W2 & W3 & W4 & W5).
+  assert (Ecl : sh_class sh = fst ce).
+  { rewrite S2. rewrite shex_class_eq in Hc. destruct (class_selected _ _ _ _ _); [|discriminate].
+    destruct (tune _ _ _ _); [|discriminate]. inversion Hc; reflexivity. }
+  rewrite Ecl in *.
+  eapply (class_cardinalities fa okN okF L cfg A (insts_of (fst ce)) (cntf (fst ce)) thr C ce); eauto.
+Qed.
+
+(** corollary (the property's side claim): a '?' means no instance has two matching values *)
+Corollary opt_at_most_one fa okN okF (L : FreqLaws fa okN okF) cfg (A : Type)
+        (insts_of : str -> list A) (cntf : str -> A -> bool -> str -> str -> N) thr P C shapes :
+  x_keep_less_specific cfg = true -> x_all_compliant cfg = true -> okF thr ->
+  (forall ce, In ce P ->
+     class_cnt C ce = N.of_nat (List.length (insts_of (fst ce))) /\ okN (class_cnt C ce) /\
+     pd_wf cfg A (insts_of (fst ce)) (cntf (fst ce)) false (c_direct (snd ce)) /\
+     (x_inverse cfg = true -> pd_wf cfg A (insts_of (fst ce)) (cntf (fst ce)) true (c_inverse (snd ce))) /\
+     (forall i inv k, In i (insts_of (fst ce)) -> (cntf (fst ce) i inv (x_tau cfg) k <= 1)%N)) ->
+  shex fa cfg thr P C = inl shapes ->
+  forall sh s, In sh shapes -> In s (sh_stmts sh) -> s_choice s = false -> s_type s <> c_NONLITERAL_ELEM_TYPE ->
+  s_card s = COpt ->
+  forall i, In i (insts_of (sh_class sh)) -> (cntf (sh_class sh) i (s_inv s) (s_prop s) (s_type s) <= 1)%N.
+Proof.
+  intros Hk Hon Hthr Hwf H sh s Hsh Hs Hch Hty Hopt i Hi.
+  pose proof (stage_cardinalities fa okN okF L cfg A insts_of cntf thr P C shapes Hk Hon Hthr Hwf H
+                                  sh s Hsh Hs Hch Hty i Hi) as Hc.
+  rewrite Hopt in Hc. exact Hc.
+Qed.
